@@ -18,7 +18,7 @@ def _post(c):
             b["witness"] = ("bad_fields exposure / (rw_perm&077, dkg_perm&077, secure(key), secure(share)) = " + re.sub(r"\s+", " ", out)[:3000])
 
 CFG = {
-    "disabled": True,
+    "disabled": False,
     "post": _post,
     "props": "Props/C15.v",
     "corr": ["Corr/SecrecyCorr.v"],
